@@ -41,7 +41,12 @@ func verifSymStyle(tag string, colours bool) Style {
 	var st Style
 	if !colours {
 		st.Attribute = AttributeMask(zzverif.Uint8(tag+".attr")) & 0xFE
-		st.UnderlineStyle = UnderlineStyle(zzverif.Choose(tag+".ul", 6))
+		if zzverif.Param("first") == 2 {
+			// pair mode: both cells free over bold/dim/italic/blink (16 x 16 transitions)
+			st.Attribute &= AttrBold | AttrDim | AttrItalic | AttrBlink
+		} else {
+			st.UnderlineStyle = UnderlineStyle(zzverif.Choose(tag+".ul", 6))
+		}
 	}
 	if colours {
 		// one colour channel varies at a time (the channel is a harness parameter)
@@ -116,5 +121,25 @@ func VerifC18Cells() {
 	} else {
 		zzverif.Assert(false, "tail-cell-present")
 	}
+	zzverif.Reach("end")
+}
+
+// VerifC18LegacyTruncated: as VerifC18TermLegacyTruncated for parseSGR.
+func VerifC18LegacyTruncated() {
+	var params [][]int
+	for i := zzverif.Choose("prefix", 4); i > 0; i-- {
+		params = append(params, []int{1})
+	}
+	params = append(params, []int{[]int{38, 48, 58}[zzverif.Choose("head", 3)]})
+	m := zzverif.Choose("following", 6)
+	for i := 0; i < m; i++ {
+		v := []int{0, 300}[zzverif.Choose("v", 2)]
+		if i == 0 {
+			v = []int{2, 5, 7}[zzverif.Choose("kind", 3)]
+		}
+		params = append(params, []int{v})
+	}
+	var st Style
+	parseSGR(params, &st)
 	zzverif.Reach("end")
 }
